@@ -64,12 +64,23 @@ def stored():
     return json.load(open(p)) if os.path.exists(p) else {}
 
 
+def _pyver():
+    import sys
+    return '%d.%d' % sys.version_info[:2]
+
+
 def drift(prop):
-    """(current digest, recorded digest, changed?)"""
-    cur, rec = digest(prop), stored().get(prop)
+    """(current digest, recorded digest, changed?)  ast.dump differs between interpreter versions, so
+    digests recorded by another Python are 'unknown' (no drift reported), never 'changed'"""
+    st = stored()
+    cur, rec = digest(prop), st.get(prop)
+    if st.get('_python') != _pyver():
+        return cur, None, False
     return cur, rec, (rec is not None and cur != rec)
 
 
 if __name__ == '__main__':
-    json.dump({p: digest(p) for p in sorted(ANCHORS)}, open(os.path.join(HERE, 'sentinel.json'), 'w'), indent=1)
-    print('recorded', len(ANCHORS))
+    rec = {p: digest(p) for p in sorted(ANCHORS)}
+    rec['_python'] = _pyver()
+    json.dump(rec, open(os.path.join(HERE, 'sentinel.json'), 'w'), indent=1)
+    print('recorded', len(ANCHORS), 'with python', _pyver())
